@@ -61,3 +61,34 @@ func TestKVReplayNewPartition(t *testing.T) {
 		}
 	}
 }
+
+// Fixed scenarios (run whether or not the solver gave a model): an empty window (start after end) has no
+// periods, whatever the interval; the periods of a non-empty window are ordered, contiguous and cover it.
+func TestKVReplayNewPartitionFixed(t *testing.T) {
+	day := func(y, m, d int) time.Time { return time.Date(y, time.Month(m), d, 0, 0, 0, 0, time.UTC) }
+	defer func() {
+		if r := recover(); r != nil {
+			fmt.Printf("REPLAY-CONFIRMED panic: %v\n", r)
+		}
+	}()
+	for iv := Once; iv <= Yearly; iv++ {
+		for _, w := range [][2]time.Time{{day(2024, 3, 1), day(2024, 2, 28)}, {day(2024, 1, 2), day(2024, 1, 1)}, {day(2030, 1, 1), day(2020, 12, 31)}} {
+			p := NewPartition(Period{Start: w[0], End: w[1]}, iv, 0)
+			if len(p.periods) != 0 {
+				fmt.Printf("REPLAY-CONFIRMED @empty: NewPartition({%s, %s}, %v, 0): the window is empty (start after end) but %d period(s) are generated: %v\n",
+					w[0].Format("2006-01-02"), w[1].Format("2006-01-02"), iv, len(p.periods), p.periods)
+			}
+		}
+		for _, w := range [][2]time.Time{{day(2024, 1, 15), day(2024, 4, 10)}, {day(2023, 12, 31), day(2024, 1, 1)}, {day(2024, 2, 29), day(2024, 2, 29)}} {
+			p := NewPartition(Period{Start: w[0], End: w[1]}, iv, 0)
+			if len(p.periods) == 0 || !p.periods[0].Start.Equal(w[0]) || !p.periods[len(p.periods)-1].End.Equal(w[1]) {
+				fmt.Printf("REPLAY-CONFIRMED @cover: NewPartition({%s, %s}, %v, 0) does not cover the window: %v\n", w[0].Format("2006-01-02"), w[1].Format("2006-01-02"), iv, p.periods)
+			}
+			for i := 1; i < len(p.periods); i++ {
+				if !p.periods[i-1].End.AddDate(0, 0, 1).Equal(p.periods[i].Start) {
+					fmt.Printf("REPLAY-CONFIRMED @contiguous: NewPartition({%s, %s}, %v, 0): %v\n", w[0].Format("2006-01-02"), w[1].Format("2006-01-02"), iv, p.periods)
+				}
+			}
+		}
+	}
+}
